@@ -494,10 +494,20 @@ func c07HaltOrRetry(c *core.Ctx) {
 				fa, ok := st.Addr.(*ssa.FieldAddr)
 				return ok && pi.fieldOf(fa) == pi.halted
 			}
-			f := (&core.Walk{EdgeOK: core.Forbid(halted), Stop: isLatch, Target: func(i ssa.Instruction) bool { return i == ssa.Instruction(r) }}).From(core.Entry(fn), nil)
-			// the return instruction may be shared by several paths carrying different values: restrict to paths where
-			// the returned value can be the global, i.e. when the operand is a Phi check each incoming edge
-			if f != nil && !returnsOnlyViaOtherValues(r, f) {
+			// the return instruction may be shared by several paths carrying different values (a Phi, e.g. after a helper
+			// was expanded in place): only paths on which the value returned can be the sentinel count
+			f := (&core.Walk{EdgeOK: core.Forbid(halted), Stop: isLatch, TargetPath: func(i ssa.Instruction, path []int) bool {
+				if i != ssa.Instruction(r) {
+					return false
+				}
+				for _, a := range sx.Of(core.ResolveOnPath(r.Results[0], path)).Alts() {
+					if strings.Contains(a.String(), errInconsistent) {
+						return true
+					}
+				}
+				return false
+			}}).From(core.Entry(fn), nil)
+			if f != nil {
 				c.Violate(rule, construct, r.Pos(), "ErrInconsistentState is returned on a path that neither found the processor halted nor latched halted=true: the driver gives up on this block while the store keeps accepting later blocks ("+core.PathStr(f)+")")
 			} else {
 				c.Hold(rule, construct, "ErrInconsistentState only on the halted edge or after latching halted=true")
@@ -544,7 +554,6 @@ func c07HaltOrRetry(c *core.Ctx) {
 }
 
 // returnsOnlyViaOtherValues: placeholder for Phi-sensitive refinement (conservative: false).
-func returnsOnlyViaOtherValues(r *ssa.Return, f *core.Found) bool { return false }
 
 // ---- C07-order -----------------------------------------------------------------------------------
 
